@@ -14,6 +14,10 @@ const (
 	handshakeVersion byte = 1
 
 	defaultPoolSize int = 3
+
+	// the largest pool size accepted from a peer: the connection allocates
+	// its receive queues per pool item and dials the pool at once
+	maxPoolSize int = 1024
 )
 
 var (
